@@ -228,6 +228,19 @@ CLAIMED = {
     ),
 }
 
+CLAIMED["C20"] = dict(
+    text="Theorems (Props/C20.v) about the pair model - the session model of C05 and the communication model of C07 on both ends of two FIFO channels, over the regenerated "
+         "machines: the reachable states under enabling, disabling, connecting and deliveries in ANY order are enumerated, the enumeration is proven closed under every event "
+         "(C20_reachable_complete), and on each state the claim is decided: after any history, as soon as both sides are enabled, every order of the remaining deliveries ends "
+         "within 16 steps with both sides SELECTED and COMMUNICATING - both enable orders, both roles, every disable/enable cycle (C20_both_reach_communicating); COMMUNICATING "
+         "implies SELECTED. Tied to the code by running a real host and a real equipment handler against each other with randomly segmented and paced byte streams and checking that "
+         "what they put on the wire is a trace of the model; the service calls, events exactly once and re-establishment are checked on the pair of real handlers.",
+    note=NOTE_COMMON + " Partial: 'returns what the equipment holds' and 'every event reaches the host exactly once' are established per endpoint by C12/C13/C06/C08 and observed end to end "
+         "here, not proven for the composition; timers (T3/T5-T8, linktest, establish delay) and byte-level segmentation are not in the pair model (C04/C09 cover segmentation).",
+    technique="Rocq proof (exhaustive exploration of a finite composed model, closure proven, claim decided per state) + translator-regenerated machines + trace correspondence on two real handlers",
+    design="5/C20",
+)
+
 NOT_YET = {}
 
 
